@@ -35,7 +35,7 @@ def _run_tlc(module, cfg, env=None, workers=1, extra=(), timeout=3600, heap="2g"
         if f.endswith(".tla") or f.endswith(".cfg"):
             shutil.copy(os.path.join(SPEC, f), d)
     cmd = [
-        "java", f"-Xmx{heap}", "-XX:+UseSerialGC" if workers == 1 else "-XX:+UseParallelGC", "-XX:TieredStopAtLevel=4", "-cp", JAR, "tlc2.TLC",
+        "java", f"-Xmx{heap}", "-Xss128m", "-XX:+UseSerialGC" if workers == 1 else "-XX:+UseParallelGC", "-XX:TieredStopAtLevel=4", "-cp", JAR, "tlc2.TLC",
         "-config", cfg, "-workers", str(workers), "-metadir", os.path.join(d, "meta"),
         "-noGenerateSpecTE",
     ]
